@@ -123,10 +123,11 @@ func classifyBypass(pattern string, methods []string, allURLs []string, m, u str
 	if emptyAtParam(pp, up) {
 		return "bypass:empty-segment"
 	}
-	if len(methods) == 0 && !defaultMethods[m] {
+	// the verb is the cause when the same URL is managed for a default verb
+	if len(methods) == 0 && !defaultMethods[m] && managedFn("GET", u) {
 		return "bypass:method-default"
 	}
-	if strings.ContainsAny(m, metaChars+".") {
+	if strings.ContainsAny(m, metaChars+".") && len(methods) > 0 {
 		return "bypass:meta-char"
 	}
 	for i, p := range pp {
@@ -151,6 +152,9 @@ func classifyBypass(pattern string, methods []string, allURLs []string, m, u str
 	}
 	if strings.Trim(pattern, "./") != pattern {
 		return "bypass:pattern-trim"
+	}
+	if len(methods) == 0 && !defaultMethods[m] {
+		return "bypass:method-default"
 	}
 	return "bypass:other"
 }
